@@ -79,13 +79,31 @@ fn strans_of(v: &Value) -> GdsStrans {
         angle: opt(&v["angle"], f64_of),
     }
 }
+fn bits_of(v: &Value) -> (u8, u8) {
+    (v[0].as_u64().unwrap() as u8, v[1].as_u64().unwrap() as u8)
+}
+fn props_of(v: &Value) -> Vec<GdsProperty> {
+    v.as_array()
+        .map(|a| a.iter().map(|p| GdsProperty { attr: i16_of(&p[0]), value: string_of(&p[1]) }).collect())
+        .unwrap_or_default()
+}
+/// Every field of the case is carried into the GDSII element, also those the importer never reads
+/// (ELFLAGS, PLEX, properties, text presentation / path type / width / strans): absent in a case = None / empty.
 fn elem_of(v: &Value) -> GdsElement {
+    let elflags = opt(&v["elflags"], |x| {
+        let b = bits_of(x);
+        GdsElemFlags(b.0, b.1)
+    });
+    let plex = opt(&v["plex"], |x| GdsPlex(i32_of(x)));
+    let properties = props_of(&v["props"]);
     match v["k"].as_str().expect("k") {
         "boundary" => GdsElement::GdsBoundary(GdsBoundary {
             layer: i16_of(&v["layer"]),
             datatype: i16_of(&v["datatype"]),
             xy: points_of(&v["xy"]),
-            ..Default::default()
+            elflags,
+            plex,
+            properties,
         }),
         "path" => GdsElement::GdsPath(GdsPath {
             layer: i16_of(&v["layer"]),
@@ -95,13 +113,17 @@ fn elem_of(v: &Value) -> GdsElement {
             path_type: opt(&v["path_type"], i16_of),
             begin_extn: opt(&v["begin_extn"], i32_of),
             end_extn: opt(&v["end_extn"], i32_of),
-            ..Default::default()
+            elflags,
+            plex,
+            properties,
         }),
         "sref" => GdsElement::GdsStructRef(GdsStructRef {
             name: string_of(&v["name"]),
             xy: point_of(&v["xy"]),
             strans: opt(&v["strans"], strans_of),
-            ..Default::default()
+            elflags,
+            plex,
+            properties,
         }),
         "aref" => {
             let p = points_of(&v["xy"]);
@@ -111,7 +133,9 @@ fn elem_of(v: &Value) -> GdsElement {
                 cols: i16_of(&v["cols"]),
                 rows: i16_of(&v["rows"]),
                 strans: opt(&v["strans"], strans_of),
-                ..Default::default()
+                elflags,
+                plex,
+                properties,
             })
         }
         "text" => GdsElement::GdsTextElem(GdsTextElem {
@@ -119,14 +143,24 @@ fn elem_of(v: &Value) -> GdsElement {
             layer: i16_of(&v["layer"]),
             texttype: i16_of(&v["texttype"]),
             xy: point_of(&v["xy"]),
+            presentation: opt(&v["presentation"], |x| {
+                let b = bits_of(x);
+                GdsPresentation(b.0, b.1)
+            }),
+            path_type: opt(&v["path_type"], i16_of),
+            width: opt(&v["width"], i32_of),
             strans: opt(&v["strans"], strans_of),
-            ..Default::default()
+            elflags,
+            plex,
+            properties,
         }),
         "node" => GdsElement::GdsNode(GdsNode {
             layer: i16_of(&v["layer"]),
             nodetype: i16_of(&v["nodetype"]),
             xy: points_of(&v["xy"]),
-            ..Default::default()
+            elflags,
+            plex,
+            properties,
         }),
         "box" => {
             let p = points_of(&v["xy"]);
@@ -134,7 +168,9 @@ fn elem_of(v: &Value) -> GdsElement {
                 layer: i16_of(&v["layer"]),
                 boxtype: i16_of(&v["boxtype"]),
                 xy: [p[0].clone(), p[1].clone(), p[2].clone(), p[3].clone(), p[4].clone()],
-                ..Default::default()
+                elflags,
+                plex,
+                properties,
             })
         }
         k => panic!("harness: bad element kind {}", k),
